@@ -1,6 +1,6 @@
 from pyvc.contracts import contract
 from .function_logger import wf_at
-from .common import type_options, type_bads_state, inv_bads, inv_c04, INC, MIN, LOGMAP, DET, NOHE, LOG_GROWS
+from .common import type_options, type_bads_state, inv_bads, inv_c04, INC, MIN, LOGMAP, DET, NOHE, LOG_GROWS, inv_c02, FEAS, LOGFEAS, HISTFEAS, H_ALIGNED, HU
 
 B = "pybads.bads.bads.BADS"
 
@@ -74,6 +74,7 @@ def _(c):
     c.req("u_is_best", "implies(" + DET + ", pteq(pt(self.u), pt(self.u_best)))", props=["C04", "C19"])
     c.ens("u_is_best", "implies(" + DET + ", pteq(pt(self.u), pt(self.u_best)))", props=["C04", "C19"])
     inv_c04(c)
+    inv_c02(c)
     c10(c)
 
 
@@ -108,6 +109,12 @@ def _(c):
         "c04_estimate_is_observation": "implies(" + DET + ", self.fval == self.yval and self.fsd == 0)",
         "c04_log_maps_back": LOGMAP,
         "c04_u_is_best": "implies(" + DET + ", pteq(pt(self.u), pt(self.u_best)))",
+        # C02 / C19 / C05: feasibility of incumbent, log and history iterates; history arrays aligned with the poll counter
+        "c02_incumbent_feasible": FEAS("self.u_best"),
+        "c02_current_point_feasible": FEAS("self.u"),
+        "c02_log_feasible": LOGFEAS,
+        "c02_history_feasible": HISTFEAS,
+        "hist_aligned": H_ALIGNED + " and rows(" + HU + ") == poll_iteration + ite(is_finished, 1, 0)",
         "c04_level_kept": "lvl == ghost.lvl0 and truthy(self.options['sloppy_improvement'])",
         "msg_truth": "implies(is_finished, "
                      "(not streq(msg, '')) and streq(self.optim_state['termination_msg'], msg)"
@@ -126,6 +133,8 @@ def _(c):
         "no_failure": "not truthy(ghost.target_raised)",
         "logger_wf": wf_at("self.function_logger"),
         "nfs_kept": "nfs == ghost.nfs1 and B_ == ghost.B1",
+        "c02_sampling_point_feasible": FEAS("self.u"),
+        "c02_log_feasible": LOGFEAS,
     }, variant=["nfs - i_sample"], ghost={"fc_tail0": "fc", "nfs1": "nfs", "B1": "B_"})
     c.strings(MSG_FUN=MSG_FUN, MSG_ITER=MSG_ITER, MSG_MESH=MSG_MESH, MSG_TOLFUN=MSG_TOLFUN)
     # ---- C03 top-level clauses ---------------------------------------------------------------------------------
@@ -140,6 +149,12 @@ def _(c):
           " and implies(streq(self.optim_state['termination_msg'], MSG_MESH), self.optim_state['mesh_size'] < self.optim_state['tol_mesh'])"
           " and implies(streq(self.optim_state['termination_msg'], MSG_TOLFUN), self.f_q_historic_improvement < self.options['tol_fun'])",
           top=True, props=["C03", "C13"])
+    # ---- C02 -----------------------------------------------------------------------------------------------------
+    inv_c02(c, require=False)
+    c.req("c02_current_point_feasible", FEAS("self.u"), props=["C02"])
+    c.req("c02_log_feasible", LOGFEAS, props=["C02"])
+    c.req("fresh_history", "rows(" + HU + ") == 0 and " + H_ALIGNED, props=["C02", "C19", "C05"])
+    c.ens("returned_point_feasible", "feasx(pt(self.x))", top=True, props=["C02"])
     # ---- C04 -----------------------------------------------------------------------------------------------------
     c.req("sloppy", "truthy(self.options['sloppy_improvement'])", props=["C04", "C19"])
     c.req("fresh_log", "self.function_logger.Xn == -1", props=["C04", "C19"])
@@ -174,6 +189,11 @@ def _(c):
     c.req("log_maps_back", LOGMAP, props=["C04", "C19"])
     inv_c04(c, require=False)
     c.ens("u_is_best", "implies(" + DET + ", pteq(pt(self.u), pt(self.u_best)))", props=["C04", "C19"])
+    inv_c02(c, require=False)
+    c.req("c02_current_point_feasible", FEAS("self.u"), props=["C02"])
+    c.req("c02_log_feasible", LOGFEAS, props=["C02"])
+    c.ens("history_untouched", "same(" + HU + ", old(" + HU + ")) and " + H_ALIGNED.replace("rows(self.iteration_history['fval'])", "rows(self.iteration_history['fval'])"), props=["C02", "C19", "C05"])
+    c.req("hist_aligned", H_ALIGNED, props=["C02", "C19", "C05"])
     c.ens("sloppy_kept", "truthy(self.options['sloppy_improvement']) == truthy(old(self.options['sloppy_improvement']))")
     c.ens("stobads_off_kept", "implies(not truthy(old(self.options['stobads'])), not truthy(self.options['stobads']))")
     c.result = {"tuple": [{}, {}, {}, {}]}
@@ -188,10 +208,12 @@ def _(c):
                           "no_failure": "not truthy(ghost.target_raised)",
                           "logger_wf": wf_at("self.function_logger"),
                           "c04_log_maps_back": LOGMAP, "c04_log_grows": LOG_GROWS, "c04_he": "truthy(self.function_logger.he_noise_flag) == truthy(old(self.function_logger.he_noise_flag))",
-                          "c04_first": "implies(" + NOHE + ", self.function_logger.Xn >= 0)"})
+                          "c04_first": "self.function_logger.Xn >= 0",
+                          "c02_log_feasible": LOGFEAS})
     c.req("fresh_log", "self.function_logger.Xn == -1", props=["C04", "C19"])
     c.req("log_maps_back", LOGMAP, props=["C04", "C19"])
     inv_c04(c, require=False, u="self.u", with_fsd=False)
+    inv_c02(c, u_best=False)
     c.ens("sloppy_kept", "truthy(self.options['sloppy_improvement']) == truthy(old(self.options['sloppy_improvement']))")
     c10(c)
     c.ens("count_grows", "fc >= old(fc)", props=["C03"])
@@ -203,3 +225,35 @@ def _(c):
           " and self.options['search_mesh_expand'] == old(self.options['search_mesh_expand'])"
           " and nfs == old(nfs) and B_ == old(B_)"
           " and truthy(self.options['stobads']) == truthy(old(self.options['stobads']))")
+
+
+@contract(B + "._re_evaluate_history_", serves=["C19", "C05", "C02"])
+def _(c):
+    common(c)
+    c.req("hist_aligned", H_ALIGNED)
+    c.ens("hist_aligned", H_ALIGNED)
+    c.ens("iterates_untouched", "same(" + HU + ", old(" + HU + ")) and rows(" + HU + ") == rows(old(" + HU + ")) and same(self.iteration_history['yval'], old(self.iteration_history['yval']))",
+          top=True, props=["C19", "C05", "C02"])
+    c.ens("log_untouched", "fc == old(fc) and ghost.n_calls == old(ghost.n_calls) and self.function_logger.Xn == old(self.function_logger.Xn) and "
+          "same(self.function_logger.X, old(self.function_logger.X)) and same(self.function_logger.Y, old(self.function_logger.Y))")
+    c.ens("controller_untouched", "sc == old(sc) and ss == old(ss) and msi == old(msi) and ssi == old(ssi) and lvl == old(lvl) and NT == old(NT) and MI == old(MI) "
+          "and B_ == old(B_) and nfs == old(nfs) and cap == old(cap) and self.options['tol_fun'] == old(self.options['tol_fun']) and "
+          "truthy(self.options['sloppy_improvement']) == truthy(old(self.options['sloppy_improvement'])) and self.optim_state['mesh_size'] == old(self.optim_state['mesh_size']) "
+          "and self.optim_state['tol_mesh'] == old(self.optim_state['tol_mesh']) and self.optim_state['iter'] == old(self.optim_state['iter'])")
+    c.loop(0, invariants={"hist_aligned": H_ALIGNED, "u_same": "same(" + HU + ", old(" + HU + ")) and rows(" + HU + ") == rows(old(" + HU + "))",
+                          "yval_same": "same(self.iteration_history['yval'], old(self.iteration_history['yval']))"})
+
+
+@contract(B + "._init_optim_state_", serves=["C02", "C01", "C13"])
+def _(c):
+    type_options(c)
+    c.ints("self.D")
+    c.bools("ghost.cons_none")
+    c.arr("self.x0", 2, [1, "self.D"])
+    c.req("cons_ghost", "isnone(self.non_box_cons) == ghost.cons_none")
+    c.req("D", "self.D >= 1")
+    # C02: a mesh-snapped starting point that violates the constraint is rejected (ValueError), otherwise it is feasible
+    c.ens("snapped_start_feasible", FEAS("self.u"), top=True, props=["C02"])
+    c.ens("mesh_starts_at_one", "self.mesh_size_integer == self.options['init_mesh_size_integer'] and result['search_count'] == self.options['search_n_try']",
+          top=True, props=["C13", "C03"])
+    c.may_raise("ValueError")
